@@ -1,24 +1,153 @@
-(* C07  Text search and partition operations agree with plain string operations. *)
+(* C07  Text search and partition operations agree with plain string operations.
+   Texts are lists of scalar values; a selection is (begin, end) in absolute codepoint positions
+   (the whole resource = (0, length t)).  The engines str::find and str::split enter through the
+   hypotheses find_ok / split_ok (what they return, in UTF-8 bytes of the searched slice); the regex
+   crate's matches are the oracle input of C07_regex_offsets.  Right-hand sides are the plain-string
+   meanings of Spec/TextOpsSpec.v, whose own meaning is given by the C07_match_indices_*,
+   C07_split_*, C07_trim_meaning and C07_segments_* theorems. *)
 From Coq Require Import NArith.
 From Stam Require Import Base.Tac Model.Offset Model.Utf8 Model.TextOps Spec.TextOpsSpec Proofs.TextOps.
 
-(* find_text on a resource or inside any sub-selection = the leftmost non-overlapping
-   occurrences of the needle in the plain text of the selection, shifted to absolute positions;
-   the iterator ends (no fuel exhaustion) and never panics.  Empty needle included. *)
-Theorem C07_find_text : forall (find_b : text -> text -> option nat),
-  (forall hay nd, find_b hay nd = option_map (bytepos hay) (first_occ nd hay)) ->
+Definition find_ok (find_b : text -> text -> option nat) : Prop :=
+  forall hay nd, find_b hay nd = option_map (bytepos hay) (first_occ nd hay).
+Definition split_ok (split_b : text -> text -> list (nat * nat)) : Prop :=
+  forall hay d, split_b hay d
+    = map (fun r => (bytepos hay (fst r), bytepos hay (snd r) - bytepos hay (fst r))) (split_spec d hay).
+
+(* ---- exact search ---- *)
+(* find_text on a resource or inside any sub-selection = the leftmost non-overlapping occurrences
+   of the needle in the plain text of the selection, at their absolute positions, in order; the
+   iterator terminates and never panics.  Empty needle included (one empty match per position). *)
+Theorem C07_find_text : forall find_b, find_ok find_b ->
   forall t nd sb se, sb <= se -> se <= length t ->
   find_text find_b t nd sb se = (map (shift sb) (match_indices nd (sub t sb se)), Done).
 Proof. exact find_text_spec. Qed.
 
-Theorem C07_find_text_nocase : forall (find_b : text -> text -> option nat),
-  (forall hay nd, find_b hay nd = option_map (bytepos hay) (first_occ nd hay)) ->
-  forall lc g t nd sb se, LenPres lc g t -> sb <= se -> se <= length t ->
-  find_text_nocase find_b (flat_map lc) t nd sb se
-  = (map (shift sb) (nocase_indices lc (flat_map lc nd) (sub t sb se)), Done).
-Proof. exact find_text_nocase_spec. Qed.
-
-Theorem C07_store_find_text : forall (find_b : text -> text -> option nat),
-  (forall hay nd, find_b hay nd = option_map (bytepos hay) (first_occ nd hay)) ->
+Theorem C07_store_find_text : forall find_b, find_ok find_b ->
   forall nd ts i, store_find find_b i ts nd = (store_indices i ts nd, Done).
 Proof. exact store_find_spec. Qed.
+
+(* what match_indices is: every reported range has exactly the needle as text ... *)
+Theorem C07_match_indices_sound : forall nd hay m, In m (match_indices nd hay) ->
+  snd m <= length hay /\ subtext hay (fst m) (snd m) = nd.
+Proof. exact match_indices_sound. Qed.
+(* ... ranges are in order, inside the text and do not overlap ... *)
+Theorem C07_match_indices_ordered : forall nd hay, chain 0 (match_indices nd hay) (length hay).
+Proof. exact match_indices_ordered. Qed.
+(* ... and no occurrence is missed: each one is reported or overlaps a reported one to its left *)
+Theorem C07_match_indices_maximal : forall nd hay p,
+  p + length nd <= length hay -> subtext hay p (p + length nd) = nd ->
+  exists m, In m (match_indices nd hay) /\ fst m <= p /\ p < Nat.max (snd m) (S (fst m)).
+Proof. exact match_indices_maximal. Qed.
+
+(* ---- case-insensitive search ---- *)
+(* guarded by the known class: no character of the searched text changes UTF-8 length (or
+   becomes several characters) when lower-cased *)
+Theorem C07_find_text_nocase : forall find_b, find_ok find_b ->
+  forall lc t nd sb se, Known_C07_nocase_len lc (sub t sb se) = false -> sb <= se -> se <= length t ->
+  find_text_nocase find_b (flat_map lc) t nd sb se
+  = (map (shift sb) (nocase_indices lc (flat_map lc nd) (sub t sb se)), Done).
+Proof. exact find_text_nocase_guarded. Qed.
+
+(* outside the class the case-insensitive ranges are the exact ranges of the lower-cased text *)
+Theorem C07_nocase_indices_meaning : forall lc g nd hay pos skip, (forall c, In c hay -> lc c = [g c]) ->
+  nocase_go lc nd hay pos skip = match_indices_go nd (map g hay) pos skip.
+Proof. intros. apply nocase_go_map. assumption. Qed.
+
+(* inside the class the faithful model panics ("İx" / "x") or reports a wrong range ("ẞab" / "b": 1..2 = "a" first) *)
+Theorem C07_nocase_refuted :
+  Known_C07_nocase_len lc_witness [304; 120]%N = true
+  /\ find_text_nocase find_b_ref (flat_map lc_witness) [304; 120]%N [120]%N 0 2 = ([], Panicked)
+  /\ nocase_indices lc_witness [120]%N [304; 120]%N = [(1, 2)]
+  /\ Known_C07_nocase_len lc_witness [7838; 97; 98]%N = true
+  /\ find_text_nocase find_b_ref (flat_map lc_witness) [7838; 97; 98]%N [98]%N 0 3 = ([(1, 2); (2, 3)], Done)
+  /\ nocase_indices lc_witness [98]%N [7838; 97; 98]%N = [(2, 3)].
+Proof. exact nocase_refuted. Qed.
+
+(* ---- split ---- *)
+Theorem C07_split_text : forall split_b, split_ok split_b ->
+  forall t d sb se, sb <= se -> se <= length t ->
+  split_text split_b t d sb se = (map (shift sb) (split_spec d (sub t sb se)), Done).
+Proof. exact split_text_spec. Qed.
+
+(* the pieces partition the text: joined with the delimiter they give it back ... *)
+Theorem C07_split_join : forall d hay,
+  join d (map (fun r => subtext hay (fst r) (snd r)) (split_spec d hay)) = hay.
+Proof. exact split_join. Qed.
+(* ... the first begins at 0, the last ends at the end, consecutive ones are separated by exactly
+   one occurrence of the delimiter, all lie inside the text *)
+Theorem C07_split_partition : forall d hay,
+  let ps := split_spec d hay in
+  (exists e, hd_error ps = Some (0, e)) /\ (exists b, last ps (0, 0) = (b, length hay))
+  /\ pieces_sep d hay ps
+  /\ forall r, In r ps -> fst r <= snd r /\ snd r <= length hay.
+Proof. exact split_partition. Qed.
+
+(* ---- trim ---- *)
+Theorem C07_trim_text : forall inset t sb se, sb <= se -> se <= length t ->
+  trim_text inset t sb se = OOk (shift sb (trim_spec inset (sub t sb se))).
+Proof. exact trim_text_spec. Qed.
+
+Theorem C07_trim_meaning : forall f hay,
+  let r := trim_spec f hay in
+  fst r <= snd r /\ snd r <= length hay
+  /\ subtext hay (fst r) (snd r) = rev (dropwhile f (rev (dropwhile f hay)))
+  /\ forallb f (firstn (fst r) hay) = true /\ forallb f (skipn (snd r) hay) = true.
+Proof. exact trim_spec_text. Qed.
+
+(* ---- regular expressions: offsets ---- *)
+(* an oracle group (s, e) in bytes of the searched slice, on character boundaries ps <= pe, is
+   reported as (sb + ps, sb + pe), and that range of the resource has the matched text *)
+Theorem C07_regex_offsets : forall t sb se g ps pe, sb <= se -> se <= length t ->
+  on_boundaries (sub t sb se) g ps pe ->
+  conv_group t (bytepos t sb) g = OOk (sb + ps, sb + pe)
+  /\ sub t (sb + ps) (sb + pe) = sub (sub t sb se) ps pe
+  /\ char_index (sub t sb se) (fst g) = Some ps /\ char_index (sub t sb se) (snd g) = Some pe.
+Proof. exact regex_offsets. Qed.
+
+(* ---- segmentation ---- *)
+Theorem C07_segmentation : forall interval t known,
+  segmentation interval t known = segments_spec known 0 (length t).
+Proof. exact segmentation_spec. Qed.
+
+Theorem C07_segmentation_in_range : forall interval t known b e, b <= e -> e <= length t ->
+  segmentation_in_range interval t known b e = segments_spec known b e.
+Proof. exact segmentation_in_range_spec. Qed.
+
+(* the segments are consecutive, non-empty and cover [lo, hi) ... *)
+Theorem C07_segments_contiguous : forall known lo hi, lo < hi ->
+  contiguous lo (segments_spec known lo hi) hi.
+Proof. exact segments_contiguous. Qed.
+(* ... and are cut exactly at the positions strictly inside where a known selection begins or ends *)
+Theorem C07_segments_cut_points : forall known lo hi p, lo < hi ->
+  In p (tl (map fst (segments_spec known lo hi))) <-> lo < p /\ p < hi /\ is_boundary known p = true.
+Proof. exact segments_cut_points. Qed.
+
+(* ---- sequences ---- *)
+Theorem C07_find_text_sequence : forall find_b, find_ok find_b ->
+  forall skip t frags sb se, sb <= se -> se <= length t ->
+  find_text_sequence find_b (fun x => x) skip t frags sb se
+  = OOk (option_map (map (shift sb)) (sequence_spec match_indices skip (sub t sb se) 0 frags)).
+Proof. exact find_text_sequence_spec. Qed.
+
+Theorem C07_find_text_sequence_nocase : forall find_b, find_ok find_b ->
+  forall lc skip t frags sb se, Known_C07_nocase_len lc (sub t sb se) = false -> sb <= se -> se <= length t ->
+  find_text_sequence find_b (flat_map lc) skip t frags sb se
+  = OOk (option_map (map (shift sb))
+           (sequence_spec (fun f h => nocase_indices lc (flat_map lc f) h) skip (sub t sb se) 0 frags)).
+Proof. exact find_text_sequence_nocase_guarded. Qed.
+
+(* non-vacuity: the hypotheses are satisfiable and the statements say something.
+   "ab,cd,é😀 x" : selection 3..9 = "cd,é😀 " *)
+Example C07_nonvacuous :
+  let t := [97; 98; 44; 99; 100; 44; 233; 128512; 32; 120]%N in
+  find_ok find_b_ref /\ split_ok split_b_ref
+  /\ find_text find_b_ref t [44]%N 3 9 = ([(5, 6)], Done)
+  /\ find_text find_b_ref t [] 8 10 = ([(8, 8); (9, 9); (10, 10)], Done)
+  /\ split_text split_b_ref t [44]%N 3 9 = ([(3, 5); (6, 9)], Done)
+  /\ trim_text (fun c => (c =? 32)%N || (c =? 99)%N) t 3 9 = OOk (4, 8)
+  /\ segmentation_in_range 3 t [(0, 5); (6, 7)] 3 9 = [(3, 5); (5, 6); (6, 7); (7, 9)]
+  /\ find_text_sequence find_b_ref (fun x => x) (fun c => (c =? 44)%N) t [[99; 100]; [233]]%N 3 9
+     = OOk (Some [(3, 5); (6, 7)])
+  /\ conv_group t 3 (3, 9) = OOk (6, 8).
+Proof. cbv zeta. repeat split. Qed.
